@@ -40,6 +40,12 @@ def load_patches(repo):
             for prop in m.get("props", []):
                 out.append({"id": "%s/%s" % (rid, prop), "prop": prop, "patch": os.path.join(rdir, fn),
                             "rule": m.get("rule", {}).get(prop), "benign": False})
+    # mutants of the automatic sweep (tools/automutate.py) that a rule added afterwards reports: regression guard
+    ap_ = os.path.join(HERE, "auto_mutants.json")
+    if os.path.exists(ap_):
+        for m in json.load(open(ap_)):
+            out.append({"id": m["id"], "prop": m["prop"], "file": m["file"], "span": (m["a"], m["b"]), "old": m["old"],
+                        "new": m["new"], "rule": None, "benign": False})
     sdir = os.path.join(VERIF, "seeded")
     for d in sorted(os.listdir(sdir)) if os.path.isdir(sdir) else []:
         mp = os.path.join(sdir, d, "meta.json")
@@ -65,8 +71,16 @@ def run_one(mut, repo, keep=False):
                 return res
         else:
             path = os.path.join(tmp, "audiolazy", mut["file"])
+            if "span" in mut:
+                raw = open(path, "rb").read()
+                a, b = mut["span"]
+                if raw[a:b].decode("utf-8") != mut["old"]:
+                    res.update(outcome="skipped", detail="anchor text moved: %r" % mut["old"][:60])
+                    return res
+                open(path, "wb").write(raw[:a] + mut["new"].encode("utf-8") + raw[b:])
+                mut = dict(mut, edits=[])
             src = open(path).read()
-            edits = mut.get("edits") or [(mut["old"], mut["new"])]
+            edits = mut.get("edits") if mut.get("edits") is not None else [(mut["old"], mut["new"])]
             for old, new in edits:
                 cnt = src.count(old)
                 if cnt != mut.get("count", 1):
